@@ -29,3 +29,16 @@ package numpin
 //@   requires cfg != nil && jcfg != nil
 //@   ensures [metric-ttl] cfg.MetricTTL == libfn("time.ParseDuration", 0, jcfg.MetricTTL)
 //@   modifies heap(Config)
+
+// ---- C15: loading a section = the defaults, then the section applied on top of them (a setting the section does
+// not carry gets its default, not whatever the object held before) ----
+//@ ghost var defaultsN int
+//@ func (cfg *Config) Default
+//@   opts trusted
+//@   counts defaultsN when true
+//@   modifies heap(Config)
+//@ func (cfg *Config) LoadJSON
+//@   property C15
+//@   requires cfg != nil
+//@   at_call Config.applyJSONConfig assert [defaults-first] defaultsN == old(defaultsN) + 1
+//@   modifies *
